@@ -180,7 +180,11 @@ func cmdReplay(args []string) int {
 	if len(last) > 200 {
 		last = last[:200]
 	}
-	fmt.Printf("REPRODUCED property=%s clause=fatal detail=the process died while replaying (%v): %s\n", rf.Property, runErr, last)
+	clause := "fatal"
+	if ee, ok := runErr.(*exec.ExitError); ok && ee.ExitCode() == 66 {
+		clause = "race_report"
+	}
+	fmt.Printf("REPRODUCED property=%s clause=%s detail=the process died while replaying (%v): %s\n", rf.Property, clause, runErr, last)
 	fmt.Printf("VIOLATION property=%s replay=%s\n", rf.Property, args[0])
 	return 1
 }
